@@ -417,7 +417,7 @@ func c15Gen(rt *rapid.T) c15Scenario {
 	n := hi - lo + 1
 	sc.High = rapid.SliceOfN(rapid.IntRange(0, 40), 1, 6).Draw(rt, "high")
 	relGen := rapid.SampledFrom([]int{9, 9, -2, -1, 0, 0})
-	kind := rapid.SampledFrom([]string{"control", "control", "above", "above", "load", "seqno", "failover", "open", "open", "membership", "metadata", "leader", "reopen", "multi", "partial_load", "partial_load", "file_dump", "end_during_open", "end_during_open", "end_during_open", "end_during_open", "seq_omit", "seq_omit", "file_dump", "file_dump"}).Draw(rt, "kind")
+	kind := rapid.SampledFrom([]string{"control", "control", "above", "above", "load", "seqno", "failover", "open", "open", "membership", "metadata", "leader", "reopen", "multi", "partial_load", "partial_load", "file_dump", "end_during_open", "end_during_open", "end_during_open", "end_during_open", "end_during_open", "end_during_open", "seq_omit", "seq_omit", "file_dump", "file_dump"}).Draw(rt, "kind")
 	if kind == "failover" {
 		relGen = rapid.Just(9)
 		sc.Reset = "latest"
